@@ -432,6 +432,56 @@ fn scopes_part(res: &mut PartResult) {
     res.sample(json!({"program": "with_local_recorder(r1, || { emit; with_local_recorder(r2, || { emit; panic }); emit }); emit; guard(r2) { emit }; emit", "expected": "r1: e0, e2; r2: e1, e4; e3 and e5 nowhere"}));
 }
 
+/// Many metrics (every map behind the recorder has to grow several times): 150 keys per kind registered in a fixed
+/// order, updated, snapshot taken after 1, 2, 4, 8, ... registrations: every registered metric listed exactly once, in
+/// order of first registration, with its own value.
+fn many_part(res: &mut PartResult) {
+    res.engine = "E3 growth: 450 metrics on one DebuggingRecorder, snapshots at doubling sizes".into();
+    let rec = DebuggingRecorder::new();
+    let snap = rec.snapshotter();
+    let mut states = vseq::States::new();
+    let mut want: Vec<String> = Vec::new();
+    let mut next_check = 1usize;
+    for i in 0..450usize {
+        res.executions += 1;
+        res.transitions += 1;
+        let key = if i % 2 == 0 { Key::from_name(format!("many{}", i)) } else { Key::from_parts(format!("many{}", i / 7), vec![Label::new("i", i.to_string())]) };
+        match i % 3 {
+            0 => {
+                rec.register_counter(&key, &META).increment(i as u64 + 1);
+                want.push(format!("C|{}|{}", canon(&key), i + 1));
+            }
+            1 => {
+                rec.register_gauge(&key, &META).set(i as f64);
+                want.push(format!("G|{}|{}", canon(&key), i));
+            }
+            _ => {
+                rec.register_histogram(&key, &META).record(i as f64);
+                want.push(format!("H|{}|{}", canon(&key), i));
+            }
+        }
+        if i + 1 == next_check || i == 449 {
+            next_check *= 2;
+            let got: Vec<String> = snap.snapshot().into_vec().into_iter().map(|(ck, _, _, v)| match v {
+                DebugValue::Counter(c) => format!("C|{}|{}", canon(ck.key()), c),
+                DebugValue::Gauge(g) => format!("G|{}|{}", canon(ck.key()), g.into_inner()),
+                DebugValue::Histogram(h) => format!("H|{}|{}", canon(ck.key()), h.first().map(|x| x.into_inner()).unwrap_or(-1.0)),
+            }).collect();
+            // histogram values are handed out once: a histogram registered before the previous snapshot shows none now
+            let norm = |v: &Vec<String>| -> Vec<String> { v.iter().map(|l| if l.starts_with("H|") { l.rsplitn(2, '|').nth(1).unwrap().to_string() } else { l.clone() }).collect() };
+            states.add(&got.len());
+            if norm(&got) != norm(&want) {
+                let first = norm(&got).iter().zip(norm(&want).iter()).position(|(a, b)| a != b).unwrap_or(got.len().min(want.len()));
+                res.violation("snapshot-lists-wrong-metrics-or-order", format!("after {} registrations the snapshot has {} rows (expected {}); first difference at row {}: {:?} vs expected {:?}", i + 1, got.len(), want.len(), first, got.get(first), want.get(first)), json!({"many": i}));
+                break;
+            }
+        }
+    }
+    res.states = states.len();
+    res.distinct_outcomes = states.len();
+    res.sample(json!({"metrics": 450, "snapshots_after": "1, 2, 4, ..., 256, 450 registrations"}));
+}
+
 // ------------------------------------------------------------------ E1
 struct S {
     rec: DebuggingRecorder,
@@ -573,7 +623,7 @@ fn e1(ctx: &Ctx, res: &mut PartResult, pb: usize) {
 }
 
 fn parts(ctx: &Ctx) -> Vec<PartSpec> {
-    let mut v = vec![PartSpec::new("e3-local-threads", json!({"local": true})), PartSpec::new("e3-local-scopes-one-thread", json!({"scopes": true}))];
+    let mut v = vec![PartSpec::new("e3-local-threads", json!({"local": true})), PartSpec::new("e3-local-scopes-one-thread", json!({"scopes": true})), PartSpec::new("e3-many-metrics", json!({"many": true}))];
     if ctx.quick() {
         for f in 0..alphabet().len() {
             v.push(PartSpec::new(&format!("e3-d5-first{}", f), json!({"depth": 5, "first": f})).budget(150.0));
@@ -596,7 +646,9 @@ fn parts(ctx: &Ctx) -> Vec<PartSpec> {
 
 fn run(ctx: &Ctx, spec: &PartSpec) -> PartResult {
     let mut res = PartResult::new(&spec.name, "");
-    if spec.arg["scopes"].as_bool() == Some(true) {
+    if spec.arg["many"].as_bool() == Some(true) {
+        many_part(&mut res);
+    } else if spec.arg["scopes"].as_bool() == Some(true) {
         scopes_part(&mut res);
     } else if spec.arg["local"].as_bool() == Some(true) {
         local_threads(&mut res);
@@ -618,7 +670,7 @@ fn main() {
     driver::main(CheckDef {
         prop: "C19",
         level: "model_checking",
-        rule: "E3: every sequence of depth <= 4 (thorough 6) over {63, 64, 65, 130 records into one histogram, one record, 65 records into another, snapshot} (windows around the 64-slot block size of the bucket); every sequence of the stated depth over 19 operations (describe with two different units / without unit and four texts, register of 4 keys incl. an equal key built differently, increments through a pair of equal keys whose two labels share a name and are spelled in either order and the same name under three kinds, counter/gauge/histogram updates, snapshot) on a fresh real DebuggingRecorder, plus a final snapshot; every snapshot compared with a reference (first-registration order, described-only metrics absent, latest description, unit kept, histogram values since the previous snapshot); all pairs of 3-step macro programs on two threads with local recorders; all programs of <= 2 local scopes (closure or guard, left normally or by a caught panic, optionally one nested scope) over two recorders on one thread, each recorder's snapshot listing exactly the emissions made while it was innermost; E1: all SC interleavings of a recording thread with a snapshotting thread; distinct = distinct snapshots",
+        rule: "E3: every sequence of depth <= 4 (thorough 6) over {63, 64, 65, 130 records into one histogram, one record, 65 records into another, snapshot} (windows around the 64-slot block size of the bucket); every sequence of the stated depth over 19 operations (describe with two different units / without unit and four texts, register of 4 keys incl. an equal key built differently, increments through a pair of equal keys whose two labels share a name and are spelled in either order and the same name under three kinds, counter/gauge/histogram updates, snapshot) on a fresh real DebuggingRecorder, plus a final snapshot; every snapshot compared with a reference (first-registration order, described-only metrics absent, latest description, unit kept, histogram values since the previous snapshot); 450 metrics on one recorder with snapshots at doubling sizes (every map grows several times); all pairs of 3-step macro programs on two threads with local recorders; all programs of <= 2 local scopes (closure or guard, left normally or by a caught panic, optionally one nested scope) over two recorders on one thread, each recorder's snapshot listing exactly the emissions made while it was innermost; E1: all SC interleavings of a recording thread with a snapshotting thread; distinct = distinct snapshots",
         assumptions: &["E1: sequential consistency, one registry shard"],
         parts,
         run,
